@@ -163,12 +163,36 @@ func WellFormed(id int, seed int64, deadline time.Duration) Run {
 	}()
 	var finished = make(chan struct{})
 	go func() { wgAll.Wait(); close(finished) }()
-	select {
-	case <-finished:
-		run.Done = true
-	case <-time.After(deadline):
-		stopObs.Store(true)
-		run.Blocked = blockedInLibrary()
+	// a run is declared stuck only if it makes no progress at all: on a loaded
+	// machine a slow run is not a blocked one
+	var waited = 0
+	for !run.Done {
+		select {
+		case <-finished:
+			run.Done = true
+		case <-time.After(deadline):
+			var before = rec.seq.Load()
+			select {
+			case <-finished:
+				run.Done = true
+				continue
+			case <-time.After(deadline):
+			}
+			waited++
+			if rec.seq.Load() != before && waited < 6 {
+				continue // still moving
+			}
+			stopObs.Store(true)
+			run.Blocked = blockedInLibrary()
+		}
+		if !run.Done && run.Blocked != nil {
+			break
+		}
+		if !run.Done && waited >= 6 {
+			stopObs.Store(true)
+			run.Blocked = blockedInLibrary()
+			break
+		}
 	}
 	rec.mu.Lock()
 	run.History = append([]Event(nil), rec.ev...)
